@@ -25,6 +25,14 @@ const skew = 5 * time.Minute
 
 var svc = kmsg.N(2, "HTTP", "host.test.gokrb5")
 
+const (
+	realm2          = "OTHER.GOKRB5"
+	exReferral      = "TGS-referral"       // the TGS reply that carries the referral TGT krbtgt/OTHER.GOKRB5 is perturbed
+	exAfterReferral = "TGS-after-referral" // the final TGS reply, issued by the other realm, is perturbed
+)
+
+var remoteSvc = kmsg.N(2, "HTTP", "svc.remote.other")
+
 // world is one simulated KDC with its endpoint, owned by one worker.
 type world struct {
 	k     *simkdc.KDC
@@ -32,6 +40,7 @@ type world struct {
 	now   atomic.Int64
 	rnd   *vh.Rand
 	ktabs map[int32]*keytab.Keytab
+	na    bool // set by a perturbation that found nothing to perturb in this reply (e.g. no addresses were requested)
 }
 
 func newWorld(id int) (*world, error) {
@@ -41,6 +50,11 @@ func newWorld(id int) (*world, error) {
 	w.k.AddRealm(realm)
 	w.k.AddService(realm, svc, 18, 17, 23)
 	w.k.AddService(realm, kmsg.N(2, "HTTP", "other.test.gokrb5"), 18)
+	// a second realm reached by a KDC referral: the home realm refers the remote service to it
+	w.k.AddRealm(realm2)
+	w.k.AddCrossRealm(realm, realm2, 18)
+	w.k.AddService(realm2, remoteSvc, 18)
+	w.k.Realms[realm].Referrals[remoteSvc.String()] = realm2
 	for _, et := range kcrypto.Etypes {
 		if _, err := w.k.AddPasswordClient(realm, kmsg.N(1, fmt.Sprintf("pw%d", et)), fmt.Sprintf("pässwörd-%d-\U0001D11E", et), nil, 0, et); err != nil {
 			return nil, err
@@ -86,7 +100,7 @@ func otherAddrs() []kmsg.Addr { return []kmsg.Addr{{Type: 2, Data: []byte{203, 0
 func catalogue() []pert {
 	rc4 := func(c cfgKey) bool { return c.et == 23 }
 	var ps []pert
-	for _, ex := range []string{"AS", "TGS"} {
+	for _, ex := range []string{"AS", "TGS", exReferral, exAfterReferral} {
 		ex := ex
 		add := func(name, kind string, f func(w *world, c cfgKey, r *simkdc.Reply, rnd *vh.Rand), skip func(c cfgKey) bool) {
 			ps = append(ps, pert{name: name, ex: ex, kind: kind, apply: f, skipIf: skip})
@@ -132,7 +146,42 @@ func catalogue() []pert {
 				r.Enc.SName = kmsg.N(2, "krbtgt", "EVIL.REALM")
 			}, nil)
 			add("enc-sname-other-service", "reject", func(w *world, c cfgKey, r *simkdc.Reply, rnd *vh.Rand) { r.Enc.SName = svc }, nil)
-			add("caddr-mismatch", "reject", func(w *world, c cfgKey, r *simkdc.Reply, rnd *vh.Rand) { r.Enc.CAddr = otherAddrs() }, func(c cfgKey) bool { return c.noaddr })
+			requested := func(w *world, r *simkdc.Reply) bool {
+				if len(r.Req.Body.Addresses) == 0 {
+					w.na = true // this host offered no address to put in the request: nothing to compare with
+					return false
+				}
+				return true
+			}
+			add("caddr-mismatch", "reject", func(w *world, c cfgKey, r *simkdc.Reply, rnd *vh.Rand) {
+				if requested(w, r) {
+					r.Enc.CAddr = otherAddrs()
+				}
+			}, func(c cfgKey) bool { return c.noaddr })
+			add("caddr-omitted-though-requested", "reject", func(w *world, c cfgKey, r *simkdc.Reply, rnd *vh.Rand) {
+				if requested(w, r) {
+					r.Enc.CAddr = nil
+				}
+			}, func(c cfgKey) bool { return c.noaddr })
+			add("caddr-one-requested-address-dropped", "reject", func(w *world, c cfgKey, r *simkdc.Reply, rnd *vh.Rand) {
+				if requested(w, r) {
+					i := rnd.Intn(len(r.Enc.CAddr))
+					r.Enc.CAddr = append(append([]kmsg.Addr{}, r.Enc.CAddr[:i]...), r.Enc.CAddr[i+1:]...)
+				}
+			}, func(c cfgKey) bool { return c.noaddr })
+			add("caddr-one-foreign-address-added", "reject", func(w *world, c cfgKey, r *simkdc.Reply, rnd *vh.Rand) {
+				if requested(w, r) {
+					r.Enc.CAddr = append(append([]kmsg.Addr{}, r.Enc.CAddr...), otherAddrs()...)
+				}
+			}, func(c cfgKey) bool { return c.noaddr })
+			add("caddr-requested-addresses-reordered", "observe", func(w *world, c cfgKey, r *simkdc.Reply, rnd *vh.Rand) {
+				if requested(w, r) && len(r.Enc.CAddr) > 1 {
+					o := append([]kmsg.Addr{}, r.Enc.CAddr[1:]...)
+					r.Enc.CAddr = append(o, r.Enc.CAddr[0])
+				} else {
+					w.na = true
+				}
+			}, func(c cfgKey) bool { return c.noaddr })
 			add("caddr-unrequested", "observe", func(w *world, c cfgKey, r *simkdc.Reply, rnd *vh.Rand) { r.Enc.CAddr = otherAddrs() }, func(c cfgKey) bool { return !c.noaddr })
 			add("authtime-future-beyond-skew", "reject", func(w *world, c cfgKey, r *simkdc.Reply, rnd *vh.Rand) {
 				r.Enc.AuthTime = r.Enc.AuthTime.Add(skew + time.Second)
@@ -174,7 +223,9 @@ func catalogue() []pert {
 		add("extra-padata", "neutral", func(w *world, c cfgKey, r *simkdc.Reply, rnd *vh.Rand) {
 			r.Rep.PAData = append(r.Rep.PAData, kmsg.PA{Type: 133, Value: []byte("cookie")})
 		}, nil)
-		ps = append(ps, pert{name: "stale-reply-to-previous-request", ex: ex, kind: "reject", stale: true})
+		if ex == "AS" || ex == "TGS" {
+			ps = append(ps, pert{name: "stale-reply-to-previous-request", ex: ex, kind: "reject", stale: true})
+		}
 	}
 	return ps
 }
@@ -182,8 +233,8 @@ func catalogue() []pert {
 func etName(et int32) string { return kcrypto.EtypeName(et) }
 
 func confText(addr string, c cfgKey) string {
-	return fmt.Sprintf("[libdefaults]\n default_realm = %s\n dns_lookup_kdc = false\n dns_lookup_realm = false\n noaddresses = %v\n clockskew = 300\n default_tkt_enctypes = %s\n default_tgs_enctypes = %s aes256-cts-hmac-sha1-96\n permitted_enctypes = %s aes256-cts-hmac-sha1-96\n allow_weak_crypto = true\n[realms]\n %s = {\n  kdc = %s\n }\n[domain_realm]\n .test.gokrb5 = %s\n",
-		realm, c.noaddr, etName(c.et), etName(c.et), etName(c.et), realm, addr, realm)
+	return fmt.Sprintf("[libdefaults]\n default_realm = %s\n dns_lookup_kdc = false\n dns_lookup_realm = false\n noaddresses = %v\n clockskew = 300\n default_tkt_enctypes = %s\n default_tgs_enctypes = %s aes256-cts-hmac-sha1-96\n permitted_enctypes = %s aes256-cts-hmac-sha1-96\n allow_weak_crypto = true\n[realms]\n %s = {\n  kdc = %s\n }\n %s = {\n  kdc = %s\n }\n[domain_realm]\n .test.gokrb5 = %s\n",
+		realm, c.noaddr, etName(c.et), etName(c.et), etName(c.et), realm, addr, realm2, addr, realm)
 }
 
 func (w *world) newClient(c cfgKey) (*client.Client, error) {
@@ -276,6 +327,19 @@ func TestProp(t *testing.T) {
 		}
 	}
 
+	// KRB-ERROR in answer to the second, pre-authenticated AS request (the first one was answered PREAUTH_REQUIRED)
+	for code := int32(1); code <= 94; code++ {
+		c := cfgKey{"kt", 18, "info2", true}
+		if code%2 == 0 {
+			c = cfgKey{"pw", 17, "info+pwsalt", true}
+		}
+		cd := code
+		if code == 94 {
+			cd = 2000
+		}
+		jobs = append(jobs, job{c: c, p: &pert{name: "krb-error-after-preauth", ex: "AS", kind: "error"}, byt: -1, code: cd})
+	}
+
 	nw := 16
 	type wjob struct{ idx int }
 	ch := make(chan int, 64)
@@ -310,6 +374,9 @@ func TestProp(t *testing.T) {
 	}
 	r.Require("base_accepted_AS", 70)
 	r.Require("base_accepted_TGS", 70)
+	r.Require("base_accepted_"+exReferral, 70)
+	r.Require("base_accepted_"+exAfterReferral, 70)
+	r.Require("krb_error_after_preauth_code_surfaced", 80)
 	r.Require("rejected_agreed", 1500)
 	r.Require("neutral_accepted", 300)
 	r.Require("krb_error_code_surfaced", 150)
@@ -328,7 +395,8 @@ func runCase(t *testing.T, r *vh.Run, w *world, ck string, c cfgKey, p *pert, by
 	pcommon.AtVirtual(t, time.Hour, func() {
 		w.now.Store(time.Now().UnixNano())
 		w.k.ResetLogs()
-		w.k.Perturb, w.k.ForceError = nil, 0
+		w.k.Perturb, w.k.ForceError, w.k.ForceErrorWhen = nil, 0, nil
+		w.na = false
 		cl, err := w.newClient(c)
 		if err != nil {
 			r.Inconclusive("client config: " + err.Error())
@@ -337,6 +405,10 @@ func runCase(t *testing.T, r *vh.Run, w *world, ck string, c cfgKey, p *pert, by
 		}
 		perturb := func(rp *simkdc.Reply) {
 			if rp.Error != nil || rp.Kind == "" {
+				return
+			}
+			// the referral exchanges perturb exactly one of the two TGS replies
+			if (p.ex == exReferral && rp.Kind != "REFERRAL") || (p.ex == exAfterReferral && rp.Kind != "TGS") {
 				return
 			}
 			applied++
@@ -358,10 +430,21 @@ func runCase(t *testing.T, r *vh.Run, w *world, ck string, c cfgKey, p *pert, by
 			}
 		}
 		pnc, pv, pw = vh.Guard(func() {
-			defer cl.Destroy()
+			defer pcommon.Teardown(cl)
 			if p.kind == "error" {
 				if p.ex == "AS" {
 					w.k.ForceError = code
+					if p.name == "krb-error-after-preauth" {
+						// only the second, pre-authenticated, request is answered with the error
+						w.k.ForceErrorWhen = func(rq *kmsg.KDCReq) bool {
+							for _, pa := range rq.PAData {
+								if pa.Type == 2 {
+									return true
+								}
+							}
+							return false
+						}
+					}
 					loginErr = cl.Login()
 					return
 				}
@@ -380,10 +463,10 @@ func runCase(t *testing.T, r *vh.Run, w *world, ck string, c cfgKey, p *pert, by
 					if err := cl0.Login(); err != nil {
 						loginErr = fmt.Errorf("preparatory login failed: %v", err)
 						skipped = true
-						cl0.Destroy()
+						pcommon.Teardown(cl0)
 						return
 					}
-					cl0.Destroy()
+					pcommon.Teardown(cl0)
 					lastOK = lastReplyBytes(w, "AS")
 				}
 				w.k.Perturb = perturb
@@ -406,11 +489,22 @@ func runCase(t *testing.T, r *vh.Run, w *world, ck string, c cfgKey, p *pert, by
 				return
 			}
 			w.k.Perturb = perturb
-			_, _, tgsErr = cl.GetServiceTicket(svc.String())
+			spn := svc.String()
+			if p.ex == exReferral || p.ex == exAfterReferral {
+				spn = remoteSvc.String()
+			}
+			_, _, tgsErr = cl.GetServiceTicket(spn)
 		})
-		w.k.Perturb, w.k.ForceError = nil, 0
+		w.k.Perturb, w.k.ForceError, w.k.ForceErrorWhen = nil, 0, nil
+		if p.name == "krb-error-after-preauth" {
+			for _, rq := range w.k.Requests() {
+				if rq.ReplyCode == code && rq.Req != nil && len(rq.Req.PAData) > 0 {
+					applied++
+				}
+			}
+		}
 	})
-	if skipped {
+	if skipped || w.na {
 		r.Inc("skipped_not_applicable")
 		return
 	}
@@ -421,7 +515,7 @@ func runCase(t *testing.T, r *vh.Run, w *world, ck string, c cfgKey, p *pert, by
 		return
 	}
 	exErr := loginErr
-	if p.ex == "TGS" {
+	if p.ex != "AS" {
 		if loginErr != nil {
 			r.Violation("C09|unperturbed-login-failed|"+c.kind, "login against the unperturbed simulated KDC failed: "+loginErr.Error(), d)
 			return
@@ -437,11 +531,18 @@ func runCase(t *testing.T, r *vh.Run, w *world, ck string, c cfgKey, p *pert, by
 			r.Inc("observe_krb_error_68")
 			return
 		}
+		if p.name == "krb-error-after-preauth" && applied == 0 {
+			r.Inconclusive("the forced KRB-ERROR never answered a pre-authenticated request in " + ck)
+			return
+		}
 		if !carriesCode(exErr, code) {
 			r.Violation(fmt.Sprintf("C09|krb-error-code-lost|%s", p.ex), fmt.Sprintf("KRB-ERROR %d reaches the caller as an error from which the code cannot be recovered: %v", code, exErr), d)
 			return
 		}
 		r.Inc("krb_error_code_surfaced")
+		if p.name == "krb-error-after-preauth" {
+			r.Inc("krb_error_after_preauth_code_surfaced")
+		}
 		return
 	}
 	if applied == 0 {
